@@ -242,6 +242,8 @@ def parse_rvalue(s):
         return ("len", parse_place(s[4:-1]))
     if s.startswith("CopyForDeref(") and s.endswith(")"):
         return ("use", ("copy", parse_place(s[len("CopyForDeref("):-1])))
+    if s.startswith("&raw const (fake) "):
+        return ("ref", parse_place(s[len("&raw const (fake) "):]))
     if s.startswith("&raw const ") or s.startswith("&raw mut "):
         return ("ref", parse_place(s.split(" ", 2)[2]))
     if s.startswith("&mut "):
@@ -311,6 +313,8 @@ def parse_stmt(s):
     m = re.fullmatch(r"Deinit\((.*)\)", s)
     if m:
         return ("nop",)
+    if " = &fake " in s:
+        return ("nop",)      # fake borrows for match guards: no runtime effect
     m = re.fullmatch(r"discriminant\((.*)\) = (\d+)", s)
     if m:
         return ("setdiscr", parse_place(m.group(1)), int(m.group(2)))
